@@ -107,7 +107,10 @@ def check(ctx):
     # the final conversion loop wraps the accumulation loop; the accumulation is its init
     # (a final conversion of the member lists to arrays wraps the accumulation: the obligation is on
     # the loop over the descriptors, wherever the conversion puts it)
-    accum = next((x for x in inner.walk() if x.op == "loop" and isinstance(x.args[1], type(inner)) and x.args[1].op == "enumerate"), inner)
+    from ..apitable import dim_term as _dt
+
+    over_desc = T("range", _dt(Dim(0)), _dt(Dim.of("D")))
+    accum = next((x for x in inner.walk() if x.op == "loop" and isinstance(x.args[1], type(inner)) and (x.args[1].op == "enumerate" or x.args[1] == over_desc)), inner)
     ctx.compare("R-ASSIGN", "grid_neighbour: the descriptor index is appended under the same label", N, accum, ref.items[3], site)
     ctx.no_shape_conflicts("Shape", "_NearestGridAssigner.predict", I, 0, site)
     # ---- SparseKDE level -------------------------------------------------------------------------------
